@@ -43,6 +43,10 @@ def build(kind, odl, np, X, f, g, rng):
     if kind == 'comp_nonlin':
         A = odl.PowerOperator(X, 3)
         return f * A, lambda x: f(A(x))
+    if kind in ('quadpert_linbase', 'quadpert_affine_linbase'):
+        lin = S_.QuadraticForm(vector=X.element(rng.standard_normal(X.size)))          # a linear functional <b, .>
+        a = 0.0 if kind == 'quadpert_affine_linbase' else 0.8
+        return S_.FunctionalQuadraticPerturb(lin, quadratic_coeff=a, linear_term=u, constant=1.5), lambda x: lin(x) + a * x.inner(x) + x.inner(u) + 1.5
     if kind == 'quadpert':
         return S_.FunctionalQuadraticPerturb(f, quadratic_coeff=1.5, linear_term=u, constant=0.3), lambda x: f(x) + 1.5 * x.inner(x) + x.inner(u) + 0.3
     if kind == 'quadpert_nolin':
